@@ -34,6 +34,7 @@ def rules(ctx):
     c017_closed(ctx)
     c019(ctx)
     c0110(ctx)
+    c0111(ctx)
     c018(ctx)
     # a key (or tombstone) missing from an SST's bloom filter makes Sst::load miss it and the search fall through to
     # an older version: the builder-side accumulation rule of C10.2 is a necessary condition of point reads too
@@ -217,11 +218,51 @@ def c017_closed(ctx):
         false_exit = any(st["s"] == "=" and st["lhs"]["l"] == 0 and st["rv"]["r"] == "use" and st["rv"]["a"].get("k") == "const" and st["rv"]["a"]["c"].get("v") == 0
                          for b in g.blocks for st in b.st)
         return contains and cmps >= 2 and levels and false_exit
+    def inline_closure_test(bb, srcs):
+        """The same test written in place: the guard reads a bool local that is set to false at a point which is itself guarded by the
+        not-an-input edge of inputs.contains(..) and by two key comparisons between a file and the candidate's range."""
+        if not srcs or not all(s_["k"] == "const" for s_ in srcs) or {s_.get("v") for s_ in srcs} != {0, 1}:
+            return False
+        d = f.blocks[bb].term.get("discr") or {}
+        loc = (d.get("pl") or {}).get("l")
+        if loc is None or f.locals[loc] != "bool":
+            return False
+        locs, grew = {loc}, True
+        while grew:     # the switch reads a temporary copy of the flag
+            grew = False
+            for b in f.blocks:
+                for st in b.st:
+                    if st["s"] == "=" and st["lhs"]["l"] in locs and not st["lhs"]["p"] and st["rv"]["r"] == "use" and st["rv"]["a"].get("k") in ("copy", "move"):
+                        src = st["rv"]["a"]["pl"]
+                        if not src["p"] and src["l"] not in locs and f.locals[src["l"]] == "bool":
+                            locs.add(src["l"])
+                            grew = True
+        for b in f.blocks:
+            for i, st in enumerate(b.st):
+                if not (st["s"] == "=" and st["lhs"]["l"] in locs and not st["lhs"]["p"] and st["rv"]["r"] == "use"
+                        and st["rv"]["a"].get("k") == "const" and st["rv"]["a"]["c"].get("v") == 0):
+                    continue
+                gs = K.guards(f, (b.idx, i))
+                contains = any(x["k"] == "call" and re.search(r"::contains$", x["callee"]) and
+                               "inputs" in {y["f"] for a in x["t"]["args"][:1] for y in P.origins(f, a) if y["k"] == "field"}
+                               for _bb, _lab, ss in gs for x in ss)
+                cmps = 0
+                for _bb, _lab, ss in gs:
+                    for x in ss:
+                        if x["k"] == "call" and re.search(r"::(le|ge|lt|gt)$", x["callee"]) and len(x["t"]["args"]) == 2:
+                            fs = [{y["f"] for y in P.origins(f, a) if y["k"] == "field"} for a in x["t"]["args"]]
+                            if all(fs_ & {"first_key", "last_key"} for fs_ in fs):
+                                cmps += 1
+                if contains and cmps >= 2:
+                    return True
+        return False
     for p_ in cand:
         ok = False
         for bb, lab, srcs in K.guards(f, p_):
             if lab == "sw:0":
                 continue
+            if inline_closure_test(bb, srcs):
+                ok = True
             for s_ in srcs:
                 if s_["k"] == "call":
                     for k_ in ctx.prog.targets(s_["t"]):
@@ -285,12 +326,72 @@ def c0110(ctx):
         t = P.term_at(f, p_)
         idx = None
         for s_ in P.origins(f, t["args"][0]):
-            if s_["k"] == "call" and re.search(r"IndexMut.*::index_mut$|index::index_mut$", s_["callee"]) and len(s_["t"]["args"]) == 2:
+            if s_["k"] == "call" and re.search(r"IndexMut.*::index_mut$|index::index_mut$|::get_mut$", s_["callee"]) and len(s_["t"]["args"]) == 2:
                 o = s_["t"]["args"][1]
-                idx = o["c"].get("v") if o.get("k") == "const" else "computed"
+                vs = {x.get("v") for x in P.origins(f, o) if x["k"] == "const"} if o.get("k") != "const" else {o["c"].get("v")}
+                idx = 0 if vs == {0} and all(x["k"] == "const" for x in P.origins(f, o)) else "computed"
+            elif s_["k"] == "call" and re.search(r"slice::first_mut$|::first_mut$", s_["callee"]):
+                idx = 0
         ctx.check(R, f, "enters-at-level-0", idx == 0, "the new file is pushed onto levels[0]",
                   "Version::ingest puts the new file into levels[%s]: a file that holds the newest versions can land beneath an older overlapping file, "
-                  "and a point read stops at the older version (not shown safe; accepted form: levels[0])" % idx, pt=p_)
+                  "and a point read stops at the older version (not shown safe; accepted forms: levels[0], levels.first_mut(), levels.get_mut(0))" % idx, pt=p_)
+
+
+def c0111(ctx):
+    R = "C01.11"
+    ctx.declare(R, "level 0 is ordered by age, not by key: a file may leave it on its own (trivial move) only if it is the oldest file there -- "
+                   "a younger file moved beneath an older overlapping one is shadowed by it")
+    f = ctx.fn(R, "lsmtk::tree::Version::find_trivial_move")
+    if not f:
+        return
+    sites = []
+    for p_ in P.call_points(f, r"lsmtk::tree::Version::find_trivial_move_for_one_sst$"):
+        zero = [g for g in K.compare_guards(f, p_) if g["op"] == "Eq" and g["holds"] and ("#0" in K.src_names(f, g["a"]) or "#0" in K.src_names(f, g["b"]))
+                and any(x["k"] == "param" for o in (g["a"], g["b"]) for x in P.origins(f, o))]
+        if zero:
+            sites.append(p_)
+    ctx.floor(R, "find_trivial_move: files offered for a move out of level 0", len(sites), 1)
+    for p_ in sites:
+        t = P.term_at(f, p_)
+        srcs = P.origins(f, t["args"][-1])
+        mins = [x for x in srcs if x["k"] == "call" and re.search(r"Iterator::min_by(_key)?$", x["callee"])]
+        loops = [x for x in srcs if x["k"] == "call" and re.search(r"Iterator>?::next$", x["callee"])]
+        idxs = [x for x in srcs if x["k"] == "call" and re.search(r"::index$|::get$|::first$|::last$", x["callee"]) and not any(y["k"] == "field" and y["f"] == "levels" for y in P.origins(f, x["t"]["args"][0]))]
+        ok = bool(mins) and not loops and not idxs
+        asc = None
+        # the same file named another way: element 0 of a vector of the level's files sorted ascending by a timestamp
+        if not mins and not loops and len(idxs) == 1 and re.search(r"::index$", idxs[0]["callee"]):
+            it = idxs[0]["t"]
+            zero = all(x["k"] == "const" and x.get("v") == 0 for x in P.origins(f, it["args"][1])) and P.origins(f, it["args"][1])
+            vec = {x["pt"] for x in P.origins(f, it["args"][0]) if x["k"] == "call"}
+            for q_ in P.call_points(f, r"slice::<impl \[T\]>::sort(_unstable)?_by_key$|::sort(_unstable)?_by_key$"):
+                c = P.term_at(f, q_)
+                if zero and vec & {x["pt"] for x in P.origins(f, c["args"][0]) if x["k"] == "call"} and not P.order(f, [q_], [idxs[0]["pt"]]):
+                    mm = re.search(r"Closure\(DefId\([^)]*::(\{closure#\d+\})\)", str(c.get("ga")))
+                    g = ctx.prog.fns.get(f.key + "::" + mm.group(1)) if mm else None
+                    if g is not None and any(isinstance(e, dict) and "timestamp" in e.get("f", "") for b in g.blocks for st in b.st if st["s"] == "="
+                                             for e in ((st["rv"].get("pl") or {}).get("p", []) + ((st["rv"].get("a") or {}).get("pl") or {}).get("p", []))):
+                        ok, asc = True, True
+        for m in mins:
+            mm = re.search(r"Closure\(DefId\([^)]*::(\{closure#\d+\})\)", str(m["t"].get("ga")))
+            g = ctx.prog.fns.get(f.key + "::" + mm.group(1)) if mm else None
+            if g is None:
+                continue
+            ts = any(isinstance(e, dict) and "timestamp" in e.get("f", "") for b in g.blocks for st in b.st if st["s"] == "=" for e in (st["rv"].get("pl") or {}).get("p", []))
+            order = None
+            for _b, c in g.calls():
+                if re.search(r"::cmp$|::partial_cmp$", c.get("callee") or "") and len(c["args"]) == 2:
+                    ia = sorted({x["i"] for x in P.origins(g, c["args"][0]) if x["k"] == "param"})
+                    ib = sorted({x["i"] for x in P.origins(g, c["args"][1]) if x["k"] == "param"})
+                    if ia and ib:
+                        order = ia[-1] < ib[0]
+            if re.search(r"min_by_key$", m["callee"]):
+                order = True
+            asc = ts and order
+        ctx.check(R, f, "oldest-leaves-level-0", ok and asc is True, "the file offered is the minimum by timestamp of level 0",
+                  "find_trivial_move offers a level-0 file that is not shown to be the oldest one there (accepted form: the min_by / min_by_key over "
+                  "a timestamp, ascending): level 0 is searched newest-first and the levels below it after it, so a younger file that moves down "
+                  "while an older file with the same key stays is shadowed by the stale version", pt=p_)
 
 
 def false_edges_of(f, callee_pat, arg_pred=None):
